@@ -11,6 +11,7 @@ FUNCTIONS = [
     D + "__init__",
     D + "__bool__",
     D + "_get_table_columns",
+    "sqllineage.core.metadata_provider.MetaDataSession.__exit__",
     ("sqllineage.core.holders.SubQueryLineageHolder._replace_wildcard", ["modeltypes", "config", "metadata", "holders", "holders_c13"]),
     ("sqllineage.core.holders.SQLLineageHolder._build_digraph", ["modeltypes", "config", "metadata", "holders"]),
 ]
